@@ -1,5 +1,5 @@
 from ._common import make, make_replay
 
-LEVEL = "other"
+LEVEL = "proof"
 run = make("C13")
 replay = make_replay("C13")
